@@ -46,7 +46,7 @@ type connRec struct {
 type core struct {
 	mu       sync.Mutex
 	changed  chan struct{}
-	out      outcome
+	outs     map[string]outcome // by CSeq of the request the handler is called for; default 200
 	stream   *gortsplib.ServerStream
 	sessions []*sessRec
 	bySess   map[*gortsplib.ServerSession]*sessRec
@@ -60,6 +60,7 @@ func newCore() *core {
 		bySess:  map[*gortsplib.ServerSession]*sessRec{},
 		conns:   map[int]*connRec{},
 		calls:   map[string]int{},
+		outs:    map[string]outcome{},
 	}
 }
 
@@ -93,11 +94,23 @@ func (c *core) waitFor(timeout time.Duration, pred func() bool) bool {
 	}
 }
 
-func (c *core) outcomeNow(name string) outcome {
+func (c *core) outcomeNow(name string, req *base.Request) outcome {
 	c.mu.Lock()
 	defer c.mu.Unlock()
 	c.calls[name]++
-	return c.out
+	if v, ok := req.Header["CSeq"]; ok && len(v) == 1 {
+		if o, ok := c.outs[v[0]]; ok {
+			return o
+		}
+	}
+	return outcome{status: 200}
+}
+
+// setOutcome scripts the handler's answer to the request with this CSeq.
+func (c *core) setOutcome(cseq string, o outcome) {
+	c.mu.Lock()
+	c.outs[cseq] = o
+	c.mu.Unlock()
 }
 
 func (o outcome) res() *base.Response {
@@ -156,8 +169,8 @@ func (h hBase) OnSessionClose(ctx *gortsplib.ServerHandlerOnSessionCloseCtx) {
 
 type hDescribe struct{ c *core }
 
-func (h hDescribe) OnDescribe(_ *gortsplib.ServerHandlerOnDescribeCtx) (*base.Response, *gortsplib.ServerStream, error) {
-	o := h.c.outcomeNow("describe")
+func (h hDescribe) OnDescribe(ctx *gortsplib.ServerHandlerOnDescribeCtx) (*base.Response, *gortsplib.ServerStream, error) {
+	o := h.c.outcomeNow("describe", ctx.Request)
 	if o.status == 200 {
 		return o.res(), h.c.stream, o.error()
 	}
@@ -166,15 +179,15 @@ func (h hDescribe) OnDescribe(_ *gortsplib.ServerHandlerOnDescribeCtx) (*base.Re
 
 type hAnnounce struct{ c *core }
 
-func (h hAnnounce) OnAnnounce(_ *gortsplib.ServerHandlerOnAnnounceCtx) (*base.Response, error) {
-	o := h.c.outcomeNow("announce")
+func (h hAnnounce) OnAnnounce(ctx *gortsplib.ServerHandlerOnAnnounceCtx) (*base.Response, error) {
+	o := h.c.outcomeNow("announce", ctx.Request)
 	return o.res(), o.error()
 }
 
 type hSetup struct{ c *core }
 
 func (h hSetup) OnSetup(ctx *gortsplib.ServerHandlerOnSetupCtx) (*base.Response, *gortsplib.ServerStream, error) {
-	o := h.c.outcomeNow("setup")
+	o := h.c.outcomeNow("setup", ctx.Request)
 	// the library requires a stream for readers (when answering 200) and none for publishers
 	if o.status == 200 && ctx.Session.State() != gortsplib.ServerSessionStatePreRecord {
 		return o.res(), h.c.stream, o.error()
@@ -184,35 +197,35 @@ func (h hSetup) OnSetup(ctx *gortsplib.ServerHandlerOnSetupCtx) (*base.Response,
 
 type hPlay struct{ c *core }
 
-func (h hPlay) OnPlay(_ *gortsplib.ServerHandlerOnPlayCtx) (*base.Response, error) {
-	o := h.c.outcomeNow("play")
+func (h hPlay) OnPlay(ctx *gortsplib.ServerHandlerOnPlayCtx) (*base.Response, error) {
+	o := h.c.outcomeNow("play", ctx.Request)
 	return o.res(), o.error()
 }
 
 type hRecord struct{ c *core }
 
-func (h hRecord) OnRecord(_ *gortsplib.ServerHandlerOnRecordCtx) (*base.Response, error) {
-	o := h.c.outcomeNow("record")
+func (h hRecord) OnRecord(ctx *gortsplib.ServerHandlerOnRecordCtx) (*base.Response, error) {
+	o := h.c.outcomeNow("record", ctx.Request)
 	return o.res(), o.error()
 }
 
 type hPause struct{ c *core }
 
-func (h hPause) OnPause(_ *gortsplib.ServerHandlerOnPauseCtx) (*base.Response, error) {
-	o := h.c.outcomeNow("pause")
+func (h hPause) OnPause(ctx *gortsplib.ServerHandlerOnPauseCtx) (*base.Response, error) {
+	o := h.c.outcomeNow("pause", ctx.Request)
 	return o.res(), o.error()
 }
 
 type hGetParameter struct{ c *core }
 
-func (h hGetParameter) OnGetParameter(_ *gortsplib.ServerHandlerOnGetParameterCtx) (*base.Response, error) {
-	o := h.c.outcomeNow("getparameter")
+func (h hGetParameter) OnGetParameter(ctx *gortsplib.ServerHandlerOnGetParameterCtx) (*base.Response, error) {
+	o := h.c.outcomeNow("getparameter", ctx.Request)
 	return o.res(), o.error()
 }
 
 type hSetParameter struct{ c *core }
 
-func (h hSetParameter) OnSetParameter(_ *gortsplib.ServerHandlerOnSetParameterCtx) (*base.Response, error) {
-	o := h.c.outcomeNow("setparameter")
+func (h hSetParameter) OnSetParameter(ctx *gortsplib.ServerHandlerOnSetParameterCtx) (*base.Response, error) {
+	o := h.c.outcomeNow("setparameter", ctx.Request)
 	return o.res(), o.error()
 }
